@@ -46,6 +46,32 @@
 /* output bytes at or beyond len still have their old value */
 #define DEC_INV_FRAME(out, len, max_len) (((g_j < (max_len)) && g_j >= (len)) ==> (out)[g_j] == g_ob)
 
+/* ---- default port table as a specification (url.c nni_url_default_ports[],
+ * checked against the real initialisers by unit tables_match of modules/url):
+ * a scheme has the default port of the table entry it EQUALS, optionally
+ * followed by the address-family suffix "4" or "6" (NNG extension). */
+#define UP_C(s, l, i) ((i) >= sizeof(l) - 1 || (s)[(i)] == (l)[(i)])
+#define UP_STARTS(s, l) \
+	(UP_C(s, l, 0) && UP_C(s, l, 1) && UP_C(s, l, 2) && UP_C(s, l, 3) && UP_C(s, l, 4) && UP_C(s, l, 5))
+#define UP_SCH_IS(s, l)                                       \
+	(UP_STARTS(s, l) &&                                   \
+	    ((s)[sizeof(l) - 1] == 0 ||                       \
+	        (((s)[sizeof(l) - 1] == '4' || (s)[sizeof(l) - 1] == '6') && (s)[sizeof(l)] == 0)))
+#define UP_DEFPORT(s)                        \
+	(UP_SCH_IS(s, "git")         ? 9418  \
+	        : UP_SCH_IS(s, "gopher") ? 70 \
+	        : UP_SCH_IS(s, "http")   ? 80 \
+	        : UP_SCH_IS(s, "https")  ? 443 \
+	        : UP_SCH_IS(s, "ssh")    ? 22 \
+	        : UP_SCH_IS(s, "telnet") ? 23 \
+	        : UP_SCH_IS(s, "ws")     ? 80 \
+	        : UP_SCH_IS(s, "ws4")    ? 80 \
+	        : UP_SCH_IS(s, "ws6")    ? 80 \
+	        : UP_SCH_IS(s, "wss")    ? 443 \
+	        : UP_SCH_IS(s, "wss4")   ? 443 \
+	        : UP_SCH_IS(s, "wss6")   ? 443 \
+	                                 : 0)
+
 /* module-local ghosts */
 size_t   g_m;   /* free ghost scalar */
 uint8_t  g_ob;  /* ghost byte tied to an OUTPUT buffer index by a precondition equation */
